@@ -22,11 +22,11 @@ ASSUMPTIONS = ['tapers are those returned by dpss of the same tree (their correc
 def bounds(tier):
     q = tier == 'quick'
     return {'N': [16, 17, 32] if q else [16, 17, 32, 64, 256, 1024], 'NW': [1.5, 2, 2.5, 4], 'k': 'default and every 2..floor(2NW)', 'NFFT': 'N, N+1, 2N, 2N+1',
-            'methods': ['unity', 'eigen', 'adapt'], 'families': 'noise-like + tones, real and complex'}
+            'methods': ['unity', 'eigen', 'adapt'], 'families': 'noise-like + tones, real and complex', 'histories': 'every ordered pair of (NW in {2,2.5,4}) x (k in {default,3}) x (unity, adapt) on one object, recomputed explicitly'}
 
 
 def expected_clauses(tier):
-    return ['eigenspectra', 'eigenvalues', 'weights_unity', 'weights_eigen', 'weights_adapt', 'adapt_fixed_point', 'class_psd', 'precomputed']
+    return ['eigenspectra', 'eigenvalues', 'weights_unity', 'weights_eigen', 'weights_adapt', 'adapt_fixed_point', 'class_psd', 'precomputed', 'history']
 
 
 def shards(tier):
@@ -51,6 +51,13 @@ def run_shard(desc, R, tier):
     ks = [None] + list(range(2, int(math.floor(2 * NW)) + 1))
     if N >= 256:
         ks = [None, int(math.floor(2 * NW))]
+    if NW == 2.5 and N <= 64:
+        cfgs = [dict(NW=nw, k=k, method=m) for nw in (2.0, 2.5, 4.0) for k in (None, 3) for m in ('unity', 'adapt') if nw < N / 2.0]
+        for name, x in fam[:2]:
+            for a in cfgs:
+                for b in cfgs:
+                    if a != b:
+                        eval_point({'kind': 'history', 'x': x, 'first': a, 'second': b, 'NFFT': N + 1, 'name': name}, R)
     for name, x in fam:
         for k in ks:
             for nf in (N, N + 1, 2 * N, 2 * N + 1):
@@ -58,7 +65,32 @@ def run_shard(desc, R, tier):
                     eval_point({'x': x, 'NW': NW, 'k': k, 'NFFT': nf, 'method': meth, 'name': name}, R)
 
 
+def eval_history(pt, R):
+    """Two-step history on one MultiTapering object: compute, change NW / k / method, compute again explicitly."""
+    import spectrum
+    x = np.asarray(pt['x'])
+    a, b = pt['first'], pt['second']
+    feats = {'dtype': 'complex' if np.iscomplexobj(x) else 'real', 'changed': ','.join(sorted(k for k in b if b[k] != a[k]))}
+    R.point(pt)
+    R.calls(3)
+    try:
+        o = spectrum.MultiTapering(x, NW=a['NW'], k=a['k'], method=a['method'], NFFT=pt['NFFT'], scale_by_freq=False)
+        o()
+        o.NW, o.k, o.method = b['NW'], b['k'], b['method']
+        o()
+        got = np.asarray(o.psd)
+        fresh = spectrum.MultiTapering(x, NW=b['NW'], k=b['k'], method=b['method'], NFFT=pt['NFFT'], scale_by_freq=False)
+        exp = np.asarray(fresh.psd)
+        tapers, lam = spectrum.dpss(len(x), b['NW'], b['k'])
+        R.check(got.shape == exp.shape and close(got, exp, 1e-12, 0.0) and close(np.asarray(o.eigenvalues), np.asarray(lam), 1e-12, 0.0), 'history', feats, pt, got, exp,
+                'recomputing after changing NW / k / method does not give the estimate of a fresh object (stale tapers / weights)', outs=(got,))
+    except Exception as e:
+        R.viol('history', dict(feats, exc=type(e).__name__), pt, repr(e), None, 'history raised')
+
+
 def eval_point(pt, R):
+    if pt.get('kind') == 'history':
+        return eval_history(pt, R)
     import spectrum
     x = np.asarray(pt['x'])
     N = len(x)
